@@ -202,6 +202,7 @@ type inReader struct {
 	idx   int
 	off   int
 	pos   int
+	over  bool
 }
 
 func (ir *inReader) Read(p []byte) (int, error) {
@@ -214,11 +215,15 @@ func (ir *inReader) Read(p []byte) (int, error) {
 		if r.aborted.Load() {
 			return 0, io.EOF
 		}
-		if ir.idx >= len(ir.items) {
+		if ir.over || ir.idx >= len(ir.items) {
 			r.inputDone.Store(true)
 			return 0, io.EOF
 		}
 		it := ir.items[ir.idx]
+		if it.K == "inz" {
+			ir.idx++
+			return 0, nil // allowed by io.Reader: nothing happened
+		}
 		if it.K == "ingate" {
 			r.inGate.Store(true)
 			ok := r.waitCond(r.childExited)
@@ -241,9 +246,32 @@ func (ir *inReader) Read(p []byte) (int, error) {
 		if ir.off == it.N {
 			ir.idx++
 			ir.off = 0
+			if r.pl.dataEOF && !ir.moreData() {
+				// the last bytes go out together with io.EOF (allowed by
+				// io.Reader); whatever gates remain are passed first
+				for ; ir.idx < len(ir.items); ir.idx++ {
+					if ir.items[ir.idx].K == "ingate" {
+						r.inGate.Store(true)
+						r.waitCond(r.childExited)
+						r.inGate.Store(false)
+					}
+				}
+				ir.over = true
+				r.inputDone.Store(true)
+				return n, io.EOF
+			}
 		}
 		return n, nil
 	}
+}
+
+func (ir *inReader) moreData() bool {
+	for _, it := range ir.items[ir.idx:] {
+		if it.K == "in" {
+			return true
+		}
+	}
+	return false
 }
 
 func (o *observed) account(b []byte) {
